@@ -29,6 +29,7 @@ import os
 import random
 
 import numpy as np
+from ..common import quiet as _quiet
 
 from .. import heapgen as hg
 from ..heapgen import World, tok_v3
@@ -244,7 +245,7 @@ def setup_world(ctx, case):
     # build
     status = "ok"
     try:
-        with np.errstate(all="ignore"):
+        with _quiet():
             w.em = ExchangeMap(w.env[S.ref], w.env[S.tgt], S.scale)
     except Exception as e:
         status = hg.exc_name(e)
@@ -279,7 +280,7 @@ def call(ctx, case, w, S, i, expect, argdesc, obj=None):
     arg = w.env[i] if obj is None else obj[1]
     status, ret = "ok", None
     try:
-        with np.errstate(all="ignore"):
+        with _quiet():
             ret = w.em(arg)
     except Exception as e:
         status = hg.exc_name(e)
@@ -319,7 +320,7 @@ def call(ctx, case, w, S, i, expect, argdesc, obj=None):
             res = after[-1]
             argob = after[i]
             # fresh map from pristine copies
-            with np.errstate(all="ignore"):
+            with _quiet():
                 fm = S.ExchangeMap(S.pref.deep_copy(), S.ptgt.deep_copy(), S.scale)
                 fr = fm(arg.deep_copy())
             if fr.atoms_positions.tobytes() != ret.atoms_positions.tobytes():
@@ -343,7 +344,7 @@ def call(ctx, case, w, S, i, expect, argdesc, obj=None):
     else:   # odd streams: outside the quantifier, evidence only
         ctx.count(f"odd:{expect}:{status}")
         if status == "ok" and expect == "o5":
-            with np.errstate(all="ignore"):
+            with _quiet():
                 fm = S.ExchangeMap(S.pref.deep_copy(), S.ptgt.deep_copy(), S.scale)
                 fr = fm(arg.deep_copy())
             same = fr.atoms_positions.tobytes() == ret.atoms_positions.tobytes()
